@@ -5,6 +5,7 @@
   `Model/GridInv.lean` (`Inv`, `pre`, `finding`).  Proofs: `Proofs/Grid*.lean`.
 -/
 import PyTough.Proofs.GridSpec
+import PyTough.Proofs.GridEmbed
 namespace Props.C08
 open Py Model Model.Grid Model.Grid.World
 
@@ -198,6 +199,51 @@ theorem F3_delete_rocktype_in_use :
   revert this; decide
 
 end Examples
+
+/-! ### adding and embedding grids
+
+`grid + other` and `grid.embed(sub, connection)` take a second grid object.  The theorems are about
+the methods themselves (`World.addGrids`, `World.embed`) for *any* two grids that live in the same
+heap; the preconditions are those that `pre` states for the operations `.addGrid` / `.embed`
+(whose second grid is built from a recipe with the public API, i.e. by `addRocktype`, `addBlock`,
+`addConnection` steps from an empty grid — covered by `inv_run`). -/
+
+/-- **Grid addition.**  If both operands are consistent, share no object and no block name (a common
+    block name is known finding F1 / argument misuse), and every rock type of the first operand whose
+    name also occurs in the second is used by no block of the first (else: known finding F2), then
+    `g1 + g2` returns a consistent grid whose blocks and connections are exactly those of the operands;
+    no object is modified. -/
+theorem grid_addition_consistent {w : World} {g1 g2 : Grid}
+    (h1 : Grid.Inv (w.withGrid g1)) (h2 : Grid.Inv (w.withGrid g2))
+    (oR : ∀ x ∈ g1.rocktypelist, x ∉ g2.rocktypelist) (oB : ∀ x ∈ g1.blocklist, x ∉ g2.blocklist)
+    (oC : ∀ x ∈ g1.connectionlist, x ∉ g2.connectionlist)
+    (nB : ∀ x ∈ g1.blocklist, ∀ y ∈ g2.blocklist, w.bname x ≠ w.bname y)
+    (nR : ∀ x ∈ g1.rocktypelist, ∀ y ∈ g2.rocktypelist, w.rname x = w.rname y → ∀ b ∈ g1.blocklist, (w.bk b).rock ≠ x) :
+    ∃ w', addGrids w g1 g2 = .ok w' ∧ Consistent w' ∧ w'.rocks = w.rocks ∧ w'.blks = w.blks ∧ w'.cons = w.cons ∧
+      (∀ y, y ∈ w'.blocklist ↔ y ∈ g1.blocklist ∨ y ∈ g2.blocklist) ∧
+      (∀ y, y ∈ w'.connectionlist ↔ y ∈ g1.connectionlist ∨ y ∈ g2.connectionlist) := by
+  obtain ⟨w', e, hI, a, b, c, d, _, f⟩ := Proofs.Grid.addGrids_inv h1 h2 oR oB oC nB nR
+  exact ⟨w', e, consistent_of_inv hI, a, b, c, d, f⟩
+
+/-- **Embedding.**  Host = the current grid, `sub` a second consistent grid in the same heap (no
+    common object; a host rock type whose name occurs in `sub` is unused, else F2), `c` a new
+    connection object from a host block to a block of `sub`.  Whether `embed` returns a grid, `None`
+    (sub-grid too big or a common block name: nothing changes) or raises, the grid is consistent. -/
+theorem embed_consistent {w : World} {sub : Grid} {c : Nat}
+    (h1 : Grid.Inv w) (h2 : Grid.Inv (w.withGrid sub))
+    (oR : ∀ x ∈ w.rocktypelist, x ∉ sub.rocktypelist) (oB : ∀ x ∈ w.blocklist, x ∉ sub.blocklist)
+    (oC : ∀ x ∈ w.connectionlist, x ∉ sub.connectionlist)
+    (nR : ∀ x ∈ w.rocktypelist, ∀ y ∈ sub.rocktypelist, w.rname x = w.rname y → ∀ b ∈ w.blocklist, (w.bk b).rock ≠ x)
+    (hc : c < w.cons.length) (hc1 : c ∉ w.connectionlist) (hc2 : c ∉ sub.connectionlist)
+    (hhost : (w.cn c).b0 ∈ w.blocklist) (hsb : (w.cn c).b1 ∈ sub.blocklist) :
+    match embed w sub c with
+    | .ok (w', _) => Grid.Inv w'
+    | .error (_, w') => Grid.Inv w' := by
+  have := Proofs.Grid.embed_inv h1 h2 oR oB oC nR hc hc1 hc2 hhost hsb
+  split at this
+  · rename_i w' heq; rw [heq]; exact this.1
+  · rename_i w' heq; rw [heq]; simp only []; rw [this]; exact h1
+  · rename_i e w' heq; rw [heq]; exact this
 
 /-! ### the grid refines "finite map name ↦ block, with an order" -/
 
